@@ -125,6 +125,23 @@ def run(tier):
         elif cur[(sym, ver)] != dflt:
             acc.violation("%s/symbol-default-changed/%s@%s" % (PID, sym, ver),
                           "%s%s%s in the release is %s%s%s now" % (sym, dflt, ver, sym, cur[(sym, ver)], ver), None)
+    # (2b) the full compat set of a default upstream build (the Debian binary lacks the Owl/SUSE versions)
+    gold = {}
+    with open(os.path.join(build.HARNESS, "abi-golden.txt")) as f:
+        for ln in f:
+            if ln.startswith("#") or not ln.strip():
+                continue
+            sym, dflt, ver = ln.split()
+            gold[(sym, ver)] = dflt
+    for (sym, ver), dflt in sorted(gold.items()):
+        acc.count("evaluations")
+        acc.cls(("golden", sym, ver))
+        if (sym, ver) not in cur:
+            acc.violation("%s/symbol-missing/%s@%s" % (PID, sym, ver),
+                          "a default build of libxcrypt 4.4.x exports %s%s%s, the fresh library does not" % (sym, dflt, ver), None)
+        elif cur[(sym, ver)] != dflt:
+            acc.violation("%s/symbol-default-changed/%s@%s" % (PID, sym, ver),
+                          "%s%s%s became %s%s%s" % (sym, dflt, ver, sym, cur[(sym, ver)], ver), None)
     # (3) old client
     exe = build.sys_program("vabi.c", "vabi-old-client", libs="-L/lib/x86_64-linux-gnu -l:libcrypt.so.1")
     lines = client_workload(run_.seed, tier)
@@ -142,6 +159,7 @@ def run(tier):
         "rule": "distinct = layout keys + (symbol, version) pairs + transcript line kinds compared",
         "layout_keys_compared": len(set(new) | set(EXPECT)),
         "symbol_version_pairs_checked": len(rel),
+        "golden_symbol_version_pairs_checked": len(gold),
         "symbol_version_pairs": sorted("%s%s%s" % (s, d, v) for (s, v), d in rel.items()),
         "client_transcript_lines_compared": int(a.n.get("lines_compared", 0)),
         "client_requests": len(lines),
